@@ -68,6 +68,7 @@ std::vector<uint64_t> g_pct_points;
 int64_t g_pct_low = -1;
 void (*g_fatal_hook)(const char *) = nullptr;
 int g_inflight = 0;
+Th *g_last_created = nullptr;  // set by the pthread_create wrapper for its caller (baton held)
 
 uint64_t rnd() {
   g_rng ^= g_rng << 13;
@@ -389,11 +390,11 @@ extern "C" int __wrap_pthread_create(pthread_t *, const pthread_attr_t *, void *
 int sched_spawn(void (*fn)(void *), void *arg) {
   pthread_t th;
   SpawnArg *a = new SpawnArg{fn, arg};
-  size_t before = g_threads.size();
+  g_last_created = nullptr;
   if (__wrap_pthread_create(&th, nullptr, spawn_tramp, a) != 0) fatal(EXIT_HARNESS, "HARNESS: spawn failed");
-  if (managed() && g_threads.size() == before + 1) {
-    g_threads.back()->client = true;
-    return g_threads.back()->id;
+  if (managed() && g_last_created) {
+    g_last_created->client = true;
+    return g_last_created->id;
   }
   return -1;
 }
@@ -550,6 +551,7 @@ int __wrap_pthread_create(pthread_t *thread, const pthread_attr_t *attr, void *(
   if (rc != 0) fatal(EXIT_HARNESS, "HARNESS: pthread_create failed");
   th->has_real = true;
   *thread = th->real;
+  g_last_created = th;
   return 0;
 }
 
